@@ -172,9 +172,28 @@ class Prog:
             if o is not None:
                 if o.get("sample_count") is not None:
                     parts.append("sample_count = %d" % o["sample_count"])
-                if o.get("ignore") is not None and not o.get("attr"):
-                    parts.append("ignore = %s" % ("true" if o["ignore"] else "false") if o["ignore"] is False or o.get("explicit") else "ignore")
+                how = o.get("how")
+                if o.get("ignore") is not None and not o.get("attr") and how not in ("attr_before", "attr_after", "reason", "reason_after"):
+                    if how == "expr":
+                        parts.append("ignore = %s" % o["expr"])
+                    else:
+                        parts.append("ignore = %s" % ("true" if o["ignore"] else "false") if o["ignore"] is False or o.get("explicit") else "ignore")
             return parts
+
+        def ignore_attr(o, before):
+            """The separate #[ignore] attribute, if the options ask for one at this position."""
+            if o is None:
+                return None
+            how = o.get("how")
+            if before and (o.get("attr") or how == "attr_before"):
+                return "#[ignore]"
+            if before and how == "reason":
+                return '#[ignore = "not now"]'
+            if not before and how == "attr_after":
+                return "#[ignore]"
+            if not before and how == "reason_after":
+                return '#[ignore = "slow, see issue"]'
+            return None
 
         def go(items, ind):
             for it in items:
@@ -197,8 +216,9 @@ class Prog:
                     if types is not None:
                         parts.append("types = [%s]" % ", ".join(TYPES[i][0] for i in types))
                     if consts is not None:
-                        form, cty, cvals = consts
-                        lit = "[%s]" % ", ".join(const_lit(cty, v) for v in cvals)
+                        form, cty, cvals = consts[:3]
+                        spell = consts[3] if len(consts) > 3 else [const_lit(cty, v) for v in cvals]
+                        lit = "[%s]" % ", ".join(spell)
                         if form == "L":
                             parts.append("consts = " + lit)
                         else:
@@ -207,10 +227,12 @@ class Prog:
                             parts.append("consts = " + cname)
                     parts = attr_opts(it.get("opts"), parts)
                     o = it.get("opts")
-                    if o is not None and o.get("attr"):
-                        emit(pad + "#[ignore]")
+                    if ignore_attr(o, True):
+                        emit(pad + ignore_attr(o, True))
                     it["line"], it["col"] = cur_line(), len(pad) + 1
                     emit(pad + "#[divan::bench%s]" % ("(%s)" % ", ".join(parts) if parts else ""))
+                    if ignore_attr(o, False):
+                        emit(pad + ignore_attr(o, False))
                     gen = []
                     tparam = "T: 'static" if types is not None else None
                     cparam = "const N: %s" % CONST_TYPES[consts[1]] if consts is not None else None
@@ -253,10 +275,12 @@ class Prog:
                         if g.get("name") is not None:
                             parts.append("name = %s" % rust_str(g["name"]))
                         parts = attr_opts(g.get("opts"), parts)
-                        if g.get("opts") is not None and g["opts"].get("attr"):
-                            emit(pad + "#[ignore]")
+                        if ignore_attr(g.get("opts"), True):
+                            emit(pad + ignore_attr(g.get("opts"), True))
                         g["line"], g["col"] = cur_line(), len(pad) + 1
                         emit(pad + "#[divan::bench_group%s]" % ("(%s)" % ", ".join(parts) if parts else ""))
+                        if ignore_attr(g.get("opts"), False):
+                            emit(pad + ignore_attr(g.get("opts"), False))
                     emit(pad + "mod %s {" % it["raw"])
                     emit(pad + "    #[allow(unused_imports)] use super::support;")
                     go(it["items"], ind + 1)
@@ -402,7 +426,11 @@ def build_crate(prog, cache, repo, timeout=900, target=None):
     shutil.copy(os.path.join(here, "harness", "hx-run", ".cargo", "config.toml"), os.path.join(d, ".cargo", "config.toml"))
     lock = os.path.join(d, "Cargo.lock")
     if not os.path.exists(lock):
-        shutil.copy(os.path.join(repo, "Cargo.lock"), lock)
+        # (a git worktree of the repo has no Cargo.lock: it is not tracked there)
+        src_lock = os.path.join(repo, "Cargo.lock")
+        if not os.path.exists(src_lock):
+            src_lock = os.path.join(here, "harness", "hx-run", "Cargo.lock")
+        shutil.copy(src_lock, lock)
     env = dict(os.environ, CARGO_NET_OFFLINE="true", CARGO_TARGET_DIR=target)
     env.pop("RUSTFLAGS", None)
     out = os.path.join(d, "exe")
@@ -434,14 +462,31 @@ def F(raw, **kw):
     return dict(k="F", raw=raw, **kw)
 
 
+# `ignore = <const expr>` forms and their values
+IGNORE_EXPRS = [("{ const I: bool = true; I }", True), ("1 + 1 == 2", True), ("!true", False), ("cfg!(not(any()))", True),
+                ("{ const I: bool = false; I }", False), ("u8::MAX == 255", True)]
+
+
+def int_spelling(rng, v, cty):
+    """A source spelling of the integer v other than (or equal to) its decimal rendering."""
+    suffix = {"i": "i64", "u": "usize"}[cty]
+    forms = [str(v), "{:_}".format(v), str(v) + suffix, str(v) + "_" + suffix]
+    if v >= 0:
+        forms += ["0x%x" % v, "0x%X" % v, "0b{:b}".format(v), "0o%o" % v, "00%d" % v, "0x_%x" % v, "0b{:_b}".format(v)]
+    return rng.choice(forms)
+
+
 def rand_opts_decl(rng, p=0.45):
     if rng.random() > p:
         return None
     k = rng.random()
     if k < 0.3:
-        return dict(ignore=True, attr=True)
+        return dict(ignore=True, how=rng.choice(["attr_before", "attr_after", "reason", "reason_after"]))
+    if k < 0.4:
+        e, v = rng.choice(IGNORE_EXPRS)
+        return dict(ignore=v, how="expr", expr=e)
     if k < 0.55:
-        return dict(ignore=True)
+        return dict(ignore=True, explicit=rng.random() < 0.5)
     if k < 0.8:
         return dict(ignore=False, explicit=True)
     return dict(sample_count=rng.choice([1, 7, 100]))
@@ -511,6 +556,8 @@ def rand_consts(rng):
     else:
         vals = rng.sample(["a", "z", "0", "Q"], n)
     form = "L" if rng.random() < 0.6 or not vals else "X"
+    if cty in "iu" and rng.random() < 0.6:
+        return (form, cty, vals, [int_spelling(rng, v, cty) for v in vals])
     return (form, cty, vals)
 
 
@@ -579,6 +626,22 @@ def feature_tour(crate):
                         group=dict(name="Raw In Group", opts=dict(ignore=True, attr=True)))],
           group=dict(name="Outer G")),
         dict(k="N", fname="outer_fn", items=[F("nested_in_fn")]),
+        # every way of writing `ignore`
+        F("ign_after", opts=dict(ignore=True, how="attr_after")),
+        F("ign_reason", opts=dict(ignore=True, how="reason")),
+        F("ign_reason_after", opts=dict(ignore=True, how="reason_after"), args=("arr_i", [1])),
+        F("ign_lit_true", opts=dict(ignore=True, explicit=True)),
+        F("ign_expr_true", opts=dict(ignore=True, how="expr", expr="{ const I: bool = true; I }")),
+        F("ign_expr_false", opts=dict(ignore=False, how="expr", expr="1 + 1 == 3")),
+        F("ign_reason_gen", types=[0, 1], opts=dict(ignore=True, how="reason")),
+        M("g_reason", [F("below_reason"), F("opt_out", opts=dict(ignore=False, explicit=True))],
+          group=dict(name="Reason Group", opts=dict(ignore=True, how="reason"))),
+        M("g_after", [F("below_after")], group=dict(opts=dict(ignore=True, how="attr_after"))),
+        M("g_expr", [F("below_expr")], group=dict(opts=dict(ignore=True, how="expr", expr="u8::MAX == 255"))),
+        # inline const literals whose source text is not the decimal rendering of the value
+        F("cs_spell", consts=("L", "i", [1000, 512, 16, 15, 7, 5, -2000], ["1_000", "0x200", "0b1_0000", "0o17", "007", "5i64", "-2_000"])),
+        F("cs_spell_t", types=[0, 1], consts=("L", "u", [4096, 10, 255], ["0x1000", "1_0usize", "0xFF"]), const_first=True),
+        F("cs_spell_ext", consts=("X", "u", [64, 8], ["0x40", "0o10"])),
         # two generic functions of the same name nested in different fn bodies (module_path!() omits the enclosing fn):
         # each keeps its own options
         dict(k="N", fname="first_host", items=[F("same_inner", types=[0, 6], opts=dict(ignore=True, sample_count=3))]),
